@@ -200,6 +200,58 @@ theorem C16_httpdate_roundtrip (t : GoTime) (h : Time.InRange t.unix) :
 theorem C16_caldate_roundtrip (t : GoTime) (h : Time.InRange t.unix) :
     Time.parseCal (calDateEncode t) = some t.unix := Lemmas.Time.parseCal_fmtCal t.unix h
 
+theorem num2_digits (a b : Char) (n : Nat) (h : Time.num2 a b = some n) : (digitVal a).isSome ∧ (digitVal b).isSome := by
+  unfold Time.num2 at h
+  cases ha : digitVal a <;> cases hb : digitVal b <;> simp [ha, hb] at h ⊢
+
+theorem num4_digits (a b c d : Char) (n : Nat) (h : Time.num4 a b c d = some n) :
+    (digitVal a).isSome ∧ (digitVal b).isSome ∧ (digitVal c).isSome ∧ (digitVal d).isSome := by
+  unfold Time.num4 at h
+  cases ha : digitVal a <;> cases hb : digitVal b <;> cases hc : digitVal c <;> cases hd : digitVal d <;> simp [ha, hb, hc, hd] at h ⊢
+
+/-- the iCalendar UTC date-time decoder accepts ONLY sixteen characters `YYYYMMDD'T'HHMMSS'Z'` with digits in the
+    numeric places (so no floating time without `Z`, no offset, no date-only form) -/
+theorem C16_caldate_rejects (s : List Char) (t : Int) (h : Time.parseCal s = some t) :
+    ∃ y1 y2 y3 y4 m1 m2 d1 d2 h1 h2 i1 i2 s1 s2,
+      s = [y1, y2, y3, y4, m1, m2, d1, d2, 'T', h1, h2, i1, i2, s1, s2, 'Z'] ∧
+      ∀ c ∈ [y1, y2, y3, y4, m1, m2, d1, d2, h1, h2, i1, i2, s1, s2], (digitVal c).isSome = true := by
+  unfold Time.parseCal at h
+  split at h
+  · rename_i y1 y2 y3 y4 m1 m2 d1 d2 h1 h2 i1 i2 s1 s2
+    refine ⟨y1, y2, y3, y4, m1, m2, d1, d2, h1, h2, i1, i2, s1, s2, rfl, ?_⟩
+    cases hy : Time.num4 y1 y2 y3 y4 with
+    | none => simp [hy] at h
+    | some y =>
+      cases hm : Time.num2 m1 m2 with
+      | none => simp [hy, hm] at h
+      | some m =>
+        cases hd : Time.num2 d1 d2 with
+        | none => simp [hy, hm, hd] at h
+        | some d =>
+          cases hh : Time.num2 h1 h2 with
+          | none => simp [hy, hm, hd, hh] at h
+          | some hr =>
+            cases hi : Time.num2 i1 i2 with
+            | none => simp [hy, hm, hd, hh, hi] at h
+            | some mi =>
+              cases hs : Time.num2 s1 s2 with
+              | none => simp [hy, hm, hd, hh, hi, hs] at h
+              | some sec =>
+                obtain ⟨a1, a2, a3, a4⟩ := num4_digits _ _ _ _ _ hy
+                obtain ⟨b1, b2⟩ := num2_digits _ _ _ hm
+                obtain ⟨c1, c2⟩ := num2_digits _ _ _ hd
+                obtain ⟨e1, e2⟩ := num2_digits _ _ _ hh
+                obtain ⟨f1, f2⟩ := num2_digits _ _ _ hi
+                obtain ⟨g1, g2⟩ := num2_digits _ _ _ hs
+                intro c hc
+                simp only [List.mem_cons, List.not_mem_nil, or_false] at hc
+                rcases hc with rfl | rfl | rfl | rfl | rfl | rfl | rfl | rfl | rfl | rfl | rfl | rfl | rfl | rfl <;> assumption
+  · cases h
+
+
+/-- a floating local time (no `Z`) is refused -/
+example : Time.parseCal "20240229T235958".toList = none := by decide
+
 -- non-vacuity ----------------------------------------------------------------------------------
 example : Time.InRange 1710032400 ∧ InInt64 207 := by unfold Time.InRange InInt64; decide
 example : etagEncode (fun c => 32 ≤ c.toNat ∧ c.toNat < 127) [.valid 'a', .valid '"', .bad 0xff, .valid '\n']
